@@ -68,7 +68,7 @@ impl<'a> ToSemTypeConverter<'a> {
                 {
                     match builder.list_runtype_ref_memo.get(name) {
                         Some(idx) => {
-                            let ty = Rc::new(SemTypeContext::mapping_definition_from_idx(*idx));
+                            let ty = Rc::new(SemTypeContext::list_definition_from_idx(*idx));
                             return Ok(ty);
                         }
                         None => {
